@@ -1,6 +1,6 @@
 (* C09 — one-hot encoding and snapping of mixed parameters are faithful.
    Only statements, each closed by `exact`, with Print Assumptions beneath.  Model: LV.Model.Domain, LV.Model.Decode. *)
-From Coq Require Import List QArith ZArith Bool Arith Qround Qabs.
+From Coq Require Import List QArith ZArith Bool Arith Qround Qabs SetoidList Permutation Lia.
 From LV Require Import Model.Domain Model.Decode Proofs.Domain Proofs.Decode.
 Import ListNotations.
 Open Scope Q_scope.
@@ -74,6 +74,103 @@ Theorem C09_int_feasible_snap_sound d rnds perms xs : Forall (snap_ok d xs) (sna
 Proof. exact (int_feasible_snap_sound d rnds perms xs). Qed.
 Print Assumptions C09_int_feasible_snap_sound.
 
+(* ------------------------------------------------------------------ the stochastic decode round trip
+   What the code does at an exact one-hot vertex: rel_prob_func adds 1e-300 to every weight, so in a block of n = a+1+b
+   categories every OTHER category gets probability p0 = 1e-300 / (1 + n*1e-300), which is NOT zero, and the category of the
+   vertex gets p1 = (1 + 1e-300) / (1 + n*1e-300).  (Contract on numpy.power: 0 ** e = 0 and 1 ** e = 1 for e > 0.) *)
+Theorem C09_onehot_probs powf T a b : pow_contract powf ->
+  exists p0 p1, rel_probs powf T (onehot a b) = repeat p0 a ++ p1 :: repeat p0 b /\
+                p0 == eps300 / (1 + nQ (a + 1 + b) * eps300) /\ p1 == (1 + eps300) / (1 + nQ (a + 1 + b) * eps300) /\
+                0 < p0 /\ 0 < p1.
+Proof. exact (rel_probs_onehot powf T a b). Qed.
+Print Assumptions C09_onehot_probs.
+
+(* Hence numpy.random.choice (cdf.searchsorted(u, side="right")) returns the category z = es[k] of the vertex exactly for the
+   draws u with  k*p0 <= u < k*p0 + p1,  written division-free as
+     in_window n k u  :=  k*1e-300 <= u*(1 + n*1e-300)  /\  u*(1 + n*1e-300) < 1 + (k+1)*1e-300 :
+   a lower tail [0, k*p0) and an upper tail [k*p0 + p1, 1) are excluded (in double arithmetic 1 + 1e-300 = 1, so the upper tail
+   is empty there and the lower tail contains the single double u = 0.0, for k >= 1). *)
+Theorem C09_choose_draw_onehot_iff powf T u es k z : pow_contract powf -> NoDup es -> nth_error es k = Some z -> 0 <= u ->
+  (choose_draw powf T u (onehot k (length es - k - 1)) es = Some z <-> in_window (length es) k u).
+Proof. exact (choose_draw_onehot_iff powf T u es k z). Qed.
+Print Assumptions C09_choose_draw_onehot_iff.
+
+(* Round trip of the stochastic decode (Appendix A's `decode powf d T us x` is `decode_row powf d (Some T) us x`): for every
+   well-formed domain, every admissible configuration, EVERY temperature (None, 0, below the minimum, anything) and every list of
+   draws u >= 0, decoding the one-hot encoding returns the configuration IF AND ONLY IF each draw lies in the window of the
+   category its parameter holds (draws_in_window: one draw per categorical parameter, in order, k = position of the value in the
+   element list).  So the round trip holds exactly outside the two 1e-300-tails, not for all draws of [0,1). *)
+Theorem C09_decode_roundtrip powf d T us p : pow_contract powf -> wf_domain d = true -> Admissible d p ->
+  draws_in_window (comps d) p us -> exists q, decode_row powf d T us (encode d p) = Some q /\ peq q p.
+Proof. exact (decode_roundtrip powf d T us p). Qed.
+Print Assumptions C09_decode_roundtrip.
+
+Theorem C09_decode_roundtrip_iff powf d T us p : pow_contract powf -> wf_domain d = true -> Admissible d p ->
+  Forall (fun u => 0 <= u) us ->
+  ((exists q, decode_row powf d T us (encode d p) = Some q /\ peq q p) <-> draws_in_window (comps d) p us).
+Proof. exact (decode_roundtrip_iff powf d T us p). Qed.
+Print Assumptions C09_decode_roundtrip_iff.
+
+(* A uniform sufficient condition: every draw in [m*1e-300, 1 - m*1e-300], m the largest number of categories. *)
+Theorem C09_decode_roundtrip_uniform powf d T us p : pow_contract powf -> wf_domain d = true -> Admissible d p ->
+  (length (filter is_cat (comps d)) <= length us)%nat ->
+  Forall (fun u => nQ (max_cats (comps d)) * eps300 <= u /\ u <= 1 - nQ (max_cats (comps d)) * eps300) us ->
+  exists q, decode_row powf d T us (encode d p) = Some q /\ peq q p.
+Proof. exact (decode_roundtrip_uniform powf d T us p). Qed.
+Print Assumptions C09_decode_roundtrip_uniform.
+
+(* The unrestricted statement ("for every draw of [0,1)") is false of the model and of the code: the draw u = 0 at the vertex of
+   the third of three categories returns the first one (replayed on the real code with numpy's generator forced to return 0.0:
+   [1.5, 7] is decoded to [1.5, 5] at every temperature). *)
+Theorem C09_decode_roundtrip_all_draws_refuted :
+  exists d T us p, wf_domain d = true /\ Admissible d p /\ Forall (fun u => 0 <= u /\ u < 1) us /\
+    ~ (exists q, decode_row pow_int d T us (encode d p) = Some q /\ peq q p).
+Proof. exact decode_roundtrip_all_draws_refuted. Qed.
+Print Assumptions C09_decode_roundtrip_all_draws_refuted.
+
+(* ------------------------------------------------------------------ completeness of the integer-feasible snap
+   (at most MAX_GRID_DIM = 13 constrained ints, so that the full floor/ceil grid is enumerated; perms_ok: each shuffle is a
+   permutation of the positions of its row's feasible neighbours.)  If every row has SOME floor/ceil combination of its
+   int-constrained coordinates satisfying the int constraints, no row is deleted or replaced by another row's neighbour: row i of
+   the result satisfies every int constraint and is row i with the int-constrained coordinates moved to floor or ceiling. *)
+Theorem C09_int_feasible_snap_complete d rnds perms xs :
+  (count_true (int_mask d) <= max_grid_dim)%nat -> perms_ok d rnds perms xs -> Forall (has_feasible_vertex d) xs ->
+  Forall2 (fun x f => sat_cons (comps d) (int_cons d) f = true /\ nbr_of (int_mask d) x f) xs (snap_feasible d rnds perms xs).
+Proof. exact (int_feasible_snap_complete d rnds perms xs). Qed.
+Print Assumptions C09_int_feasible_snap_complete.
+
+(* General form (some rows may have no feasible combination): the result is a row-by-row list from which only holes were deleted,
+   and a row with a feasible combination of its own is never a hole: it became one of its own feasible combinations. *)
+Theorem C09_int_feasible_snap_complete_rows d rnds perms xs :
+  (count_true (int_mask d) <= max_grid_dim)%nat -> perms_ok d rnds perms xs ->
+  exists filled, snap_feasible d rnds perms xs = somes filled /\
+    Forall2 (fun x o => has_feasible_vertex d x ->
+               exists f, o = Some f /\ sat_cons (comps d) (int_cons d) f = true /\ nbr_of (int_mask d) x f) xs filled.
+Proof. exact (int_feasible_snap_complete_rows d rnds perms xs). Qed.
+Print Assumptions C09_int_feasible_snap_complete_rows.
+
+(* The bounds need no test: a floor/ceil combination of the int-constrained coordinates of a point of the relaxed box is in the
+   relaxed box (int bounds are integers; int constraints put non-zero weights on int parameters only). *)
+Theorem C09_int_neighbour_in_box d x r :
+  wf_domain d = true -> in_box (one_hot_box d) x -> nbr_of (int_mask d) x r -> in_box (one_hot_box d) r.
+Proof. exact (nbr_in_box d x r). Qed.
+Print Assumptions C09_int_neighbour_in_box.
+
+(* ------------------------------------------------------------------ the categorical neighbour lattice
+   generate_neighboring_categorical_points enumerates exactly the rows in which every categorical block is a one-hot vertex
+   (unit vector at a position of the block) and every other coordinate is the input's (cat_vertex); no row occurs twice, even up
+   to Qeq; there are prod |elements| of them. *)
+Theorem C09_cat_neighbours_enumerate cs x :
+  (forall r, In r (cat_lattice cs x) <-> cat_vertex cs x r) /\ NoDupA peq (cat_lattice cs x) /\
+  ((one_hot_dim cs <= length x)%nat -> length (cat_lattice cs x) = cat_count cs).
+Proof. exact (conj (cat_lattice_spec cs x) (conj (cat_lattice_NoDup cs x) (cat_lattice_length cs x))). Qed.
+Print Assumptions C09_cat_neighbours_enumerate.
+
+Theorem C09_neighboring_cat_points_spec d xs r :
+  In r (neighboring_cat_points d xs) <-> exists x, In x xs /\ cat_vertex (comps d) x r.
+Proof. exact (neighboring_cat_points_spec d xs r). Qed.
+Print Assumptions C09_neighboring_cat_points_spec.
+
 (* non-vacuity: a four-component domain with a negative grid, non-contiguous labels and an int constraint *)
 Example C09_example :
   let d := {| comps := [Double (-2) 5; Int (-3) 10; Cat [5; 1; 7]%Z; Grid [(1#4); (-3#2); (5#2)]];
@@ -84,3 +181,44 @@ Example C09_example :
   decode_with d [1%Z] [(3#2); (5#2); (1#2); (1#2); (1#4); (-5#8)] = Some [(3#2); inject_Z 2; inject_Z 1; (1#4)] /\
   snap_feasible d [] [[1%nat; 0%nat]] [[0; (3#2); 0; 0; 1; 0]] = [[0; inject_Z 2; 0; 0; 1; 0]].
 Proof. vm_compute. repeat split; reflexivity. Qed.
+
+(* non-vacuity of the stochastic round trip: temperature 1/5 (exponent 5), the value 7 sits at position 2 of [5; 1; 7]; the draw
+   1/2 is in the window and the decode returns the configuration; the draw 0 is not and the first category comes back *)
+Example C09_example_stochastic :
+  let d := {| comps := [Double (-2) 5; Int (-3) 10; Cat [5; 1; 7]%Z; Grid [(1#4); (-3#2); (5#2)]]; cons := [] |} in
+  let p := [(3#2); 3; 7; (5#2)] in
+  pow_contract pow_int /\ wf_domain d = true /\ Admissible d p /\ draws_in_window (comps d) p [1#2] /\
+  decode_row pow_int d (Some (1#5)) [1#2] (encode d p) = Some [(3#2); inject_Z 3; inject_Z 7; (5#2)] /\
+  ~ draws_in_window (comps d) p [0] /\
+  decode_row pow_int d (Some (1#5)) [0] (encode d p) = Some [(3#2); inject_Z 3; inject_Z 5; (5#2)].
+Proof.
+  cbv zeta. split; [exact pow_int_contract|]. split; [reflexivity|]. split; [apply admissibleb_spec; reflexivity|].
+  split; [cbn [draws_in_window comps find_pos length]; unfold in_window; repeat split; vm_compute; congruence|].
+  split; [vm_compute; reflexivity|]. split; [|vm_compute; reflexivity].
+  cbn [draws_in_window comps find_pos length]. unfold in_window. intros (_ & (H & _) & _). revert H. vm_compute. intros H. apply H. reflexivity.
+Qed.
+
+(* non-vacuity of snap completeness: x1 >= 2 as an int constraint, the relaxed value 3/2: the ceiling is feasible, the floor is not *)
+Example C09_example_snap_complete :
+  let d := {| comps := [Double (-2) 5; Int (-3) 10; Cat [5; 1; 7]%Z; Grid [(1#4); (-3#2); (5#2)]];
+              cons := [{| weights := [0; 1; 0; 0]; rhs := 2; cty := CInt |}] |} in
+  let xs := [[0; (3#2); 0; 0; 1; 0]; [1; (7#3); 1; 0; 0; (1#4)]] in
+  (count_true (int_mask d) <= max_grid_dim)%nat /\ perms_ok d [] [[0%nat]; [1%nat; 0%nat]] xs /\ Forall (has_feasible_vertex d) xs /\
+  snap_feasible d [] [[0%nat]; [1%nat; 0%nat]] xs = [[0; inject_Z 2; 0; 0; 1; 0]; [1; inject_Z 3; 1; 0; 0; (1#4)]].
+Proof.
+  cbv zeta. split; [vm_compute; lia|]. split; [|split; [|vm_compute; reflexivity]].
+  - split; [vm_compute; apply Permutation_refl|]. split; [vm_compute; apply perm_swap|exact I].
+  - repeat constructor.
+    + exists [0; inject_Z 2; 0; 0; 1; 0]. split; vm_compute; intuition.
+    + exists [1; inject_Z 3; 1; 0; 0; (1#4)]. split; vm_compute; intuition.
+Qed.
+
+(* non-vacuity of the categorical lattice: the example of the docstring of generate_neighboring_categorical_points *)
+Example C09_example_cat_lattice :
+  let cs := [Double 0 1; Cat [10; 20]%Z; Cat [3; 4]%Z] in
+  let x := [(1#10); (9#10); (1#10); (2#5); (1#5)] in
+  cat_lattice cs x = [[(1#10); 1; 0; 1; 0]; [(1#10); 1; 0; 0; 1]; [(1#10); 0; 1; 1; 0]; [(1#10); 0; 1; 0; 1]] /\
+  cat_count cs = 4%nat /\ cat_vertex cs x [(1#10); 0; 1; 1; 0].
+Proof.
+  cbv zeta. split; [vm_compute; reflexivity|]. split; [reflexivity|]. apply cat_lattice_spec. vm_compute. auto.
+Qed.
